@@ -17,7 +17,9 @@ def evaluate(ck, data, rules, docg):
             rep_lines = sorted(set(r["lines"]))
             ch = sorted(set(r["changed"]))
             if not ch and r["same_count"]:
-                noop += 1  # the rule could not repair what it reported (e.g. case: camelCase): nothing changed at all
+                noop += 1  # the rule handed edits to update for the lines it reported and no line changed
+                if rep_lines:
+                    ck.violation("reported-lines-not-changed:" + rid, "%s: %s reported lines %r and its fix changed no line at all" % (T.tag(o), rid, rep_lines[:8]), T.rep(o, r, changed=ch))
                 continue
             n += 1
             if not r["same_count"]:
